@@ -296,8 +296,10 @@ func (n *NodeProcessor) SendWrite() (int, error) {
 				n.Logger.Error("Failed to truncate queue", zap.Uint64("node", n.nodeID), zap.Uint64("shardID", n.shardID), zap.Error(err))
 			}
 		} else {
-			// Try to skip it.
-			if err := n.queue.Advance(); err != nil {
+			// Nothing to read in the head segment: move on to the next one, if any.
+			// Advance must not be used here, a block appended since Current
+			// returned would be skipped without ever being sent.
+			if err := n.queue.SkipExhausted(); err != nil {
 				n.Logger.Error("Failed to advance queue", zap.Uint64("node", n.nodeID), zap.Uint64("shardID", n.shardID), zap.Error(err))
 			}
 		}
